@@ -29,7 +29,14 @@ def _q(fr: Fraction) -> str:
 
 
 class Lowerer:
-    def __init__(self, cuts=None, divvar=False, sqrt_rewrite=False):
+    def __init__(self, cuts=None, divvar=False, sqrt_rewrite=False, trig=None):
+        # trig = None: sin/cos are atoms tied by s^2 + c^2 = 1.  trig = mask (int): the k-th distinct trig argument is
+        # either parametrised exactly, (cos, sin) = ((1 - t^2) / (1 + t^2), 2 t / (1 + t^2)) with a fresh real t (bit k = 0),
+        # or is the one point of the circle that parametrisation misses, (cos, sin) = (-1, 0) (bit k = 1).  An obligation
+        # is refuted for all angles iff it is refuted for every mask.
+        self.trig = trig
+        self.trig_args = {}
+        self.cut_signs = {}  # nid of a cut node -> ">" | "<": a sign proved by a separate solver query (oblig.sign_pass)
         self.sqrt_rewrite = sqrt_rewrite  # lower sqrt-atom * same sqrt-atom as its argument (n*n -> a)
         self.sqrt_arg = {}  # sqrt atom symbol -> (N, D) of its argument
         self.divvar = divvar  # True: every quotient is a fresh real q with q*den = num (no cross-multiplication)
@@ -129,7 +136,11 @@ class Lowerer:
         op = n.op
         g = self.node
         if n.nid in self.cuts:
-            return (self.decl("cut#%d" % n.nid, "atom"), None)
+            c = self.decl("cut#%d" % n.nid, "atom")
+            if n.nid in self.cut_signs:
+                self.signed_cuts = getattr(self, "signed_cuts", {})
+                self.signed_cuts[c] = self.cut_signs[n.nid]
+            return (c, None)
         if op == "poison":
             from .sym import SymDomainError
 
@@ -167,6 +178,15 @@ class Lowerer:
             (na, da), (nb, db) = g[n.args[0].nid], g[n.args[1].nid]
             num = na if db is None else self.mulT(na, db)
             den = nb if da is None else self.mulT(da, nb)
+            return (num, den)
+        if op in ("sin", "cos") and self.trig is not None:
+            k = self.trig_args.setdefault(n.args[0].fp, len(self.trig_args))
+            if (self.trig >> k) & 1:
+                return ("(- 1.0)" if op == "cos" else "0.0", None)
+            tv = self.decl("tp#%d" % k, "atom")
+            t2 = self.mulT(tv, tv)
+            den = self.addT("1.0", t2)
+            num = self.t("(- 1.0 %s)" % t2, (t2,)) if op == "cos" else self.mulT("2.0", tv)
             return (num, den)
         if op in ("sqrt", "exp", "log", "atan", "sin", "cos"):
             s = self.atom(op, n)
@@ -254,6 +274,9 @@ class Lowerer:
             s = self.node_atoms.get(n.nid)
             if s is not None and s not in seen_atoms:
                 seen_atoms[s] = n
+        for c, sg in getattr(self, "signed_cuts", {}).items():
+            out.append("(%s %s 0.0)" % (sg, c))
+            deps.append(c)
         for s, n in seen_atoms.items():
             info = self.atom_info[s]
             kind = info["kind"]
